@@ -197,8 +197,8 @@ impl<K: ExpiredKey<E>, E: Expiration, V: Copy> KeyExpTree<K, E, V> {
             let entity = self.node(index).entity;
             match entity.key.cmp(&key) {
                 Ordering::Equal => return Some(entity.val),
-                Ordering::Less => index = self.expire_left(index, time),
-                Ordering::Greater => index = self.expire_right(index, time),
+                Ordering::Less => index = self.expire_right(index, time),
+                Ordering::Greater => index = self.expire_left(index, time),
             }
         }
 
